@@ -97,10 +97,11 @@ def corner(g: gen.Gen):
         y_ = VectorExpression([r.choice(vs_) for _ in chosen])
         return r.choice([lambda: g.coeffs(w.size) @ w, lambda: w.dot(y_), lambda: y_.dot(w), lambda: w.sum() + g.leaf(),
                          lambda: quadratic_form(w, g.matrix(w.size))])()
+    NEAR = [1.0 + 2.0 ** -20, 2.0 + 2.0 ** -18, 3.0 - 2.0 ** -21, 1.0 - 2.0 ** -22, 2.0 ** -19, 2.0 - 2.0 ** -30]   # almost natural numbers, not natural
     if k == 0:
-        return VectorPowerSum(x, r.choice([0.5, -1, -2, 1.5, 0, 1, 2, 3, 2.5]))
+        return VectorPowerSum(x, r.choice([0.5, -1, -2, 1.5, 0, 1, 2, 3, 2.5] + NEAR))
     if k == 1:
-        return (x ** r.choice([0.5, -1, 0, 1, 2, 3])).sum() + g.leaf()
+        return (x ** r.choice([0.5, -1, 0, 1, 2, 3] + NEAR)).sum() + g.leaf()
     if k == 2:
         w = gen.FN[r.choice(gen.UNARY_VEC)](x + 0)
         return g.coeffs(w.size) @ w
@@ -116,7 +117,7 @@ def corner(g: gen.Gen):
     if k == 6:
         return (Constant(g.const()) + g.const()) * g.expr(2) + Constant(3) ** r.choice([0, 1, 2])
     if k == 7:
-        return g.expr(2) ** r.choice([0, 1, 2, 3, 0.5, -1, 2.0, 1.0]) / r.choice([1, 2, 0.5])
+        return g.expr(2) ** r.choice([0, 1, 2, 3, 0.5, -1, 2.0, 1.0, 1.0 + 2.0 ** -20, 2.0 - 2.0 ** -25]) / r.choice([1, 2, 0.5])
     return g.expr(2) * g.leaf()
 
 
@@ -150,6 +151,18 @@ def finite_difference_refutes(e, d, rng) -> dict | None:
         scale = max(1.0, max(abs(v) for v in vals))
         if abs(fd) > 1e-6 * scale * 2 ** (d + 1):
             return {"base": base, "direction": direction, "values": vals, "finite_difference": fd, "order": d + 1}
+    # a polynomial is defined (and real) at EVERY point: a finite degree for something that has no real value at a point with
+    # negative coordinates (x ** 1.000001, sqrt, log ...) is refuted by that point alone
+    for attempt in range(12):
+        pt = {v.name: rng.choice([-2.0, -1.25, -0.5, -3.0]) for v in vs}
+        try:
+            with np.errstate(all="ignore"):
+                val = e.evaluate(pt)
+            bad = isinstance(val, complex) or not np.all(np.isfinite(np.asarray(val, dtype=float)))
+        except (ZeroDivisionError, ValueError, TypeError, OverflowError, FloatingPointError):
+            bad = True
+        if bad:
+            return {"point_without_a_real_value": pt, "claimed_degree": d}
     return None
 
 
